@@ -1,27 +1,38 @@
 LIBS = ["libvpsc", "libcola", "libavoid", "libtopology", "libdialect"]
 HARNESS = "harness/c19.cpp"
 DRIVER_MODE = "c19"
-LEAN_MODULES = ["AdaptaVerif.Props.C19"]
+LEAN_MODULES = ["AdaptaVerif.Props.C19", "AdaptaVerif.Props.C19Layout"]
 LEVEL = "proof"
 LEVEL_TEXT = ("Lean 4 theorems about an executable model of dialect::peel and Graph::getConnComps "
               "(partition of nodes/edges, trees connected and acyclic, core without degree-1 nodes, "
               "components = reachability classes) and soundness theorems for the executable checkers; "
               "the C++ is tied to the model by exact comparison of canonical outputs on generated graphs, "
               "and every C++ output is additionally run through the proven checkers.")
-LEVEL_NOTE = ("Proof level covers peel and getConnComps only (model theorems are partial-correctness: "
-              "'if the fuel-bounded model returns'). Tree::symmetricLayout (no two node boxes overlap) and "
+LEVEL_NOTE = ("Proof level covers peel, getConnComps (model theorems are partial-correctness: "
+              "'if the fuel-bounded model returns') and Tree::symmetricLayout: Model/TreeLayout.lean is an executable "
+              "Rat model of symmetricLayout/flip/translate/getBounds/computeIsomString as coded; Props/C19Layout.lean "
+              "proves for all trees, sizes, separations and growth directions that rank bounds enclose the nodes, "
+              "side-by-side subtrees are 2*nodeSep apart on every common rank and no two boxes overlap when every "
+              "extent along the growth direction is <= rankSep (the hypothesis is necessary: closed witness = known "
+              "finding C14-tree-rank-distance); the C++ is tied to the model by exact equality of every centre, every "
+              "m_boundsByRank entry, m_lb/m_ub and isSymmetrical() on generated trees with dyadic sizes/separations. "
               "OrthoPlanariser::planarise (no two edges cross, original nodes kept, adjacencies realised by "
-              "chains of new nodes) are validator-only: algorithms not modelled, outputs checked exactly "
+              "chains of new nodes) is validator-only: algorithm not modelled, outputs checked exactly "
               "(rational arithmetic) by Lean checkers on sampled inputs.")
 TECHNIQUE = "Lean 4 theorems (own list-based graph theory) + correspondence harness + verified output checkers"
 RULE = ("generated simple graphs (random connected, trees incl. one/two-centre paths, cycles, unicyclic, cores with "
         "hanging trees/paths, disconnected unions; rooted trees of 5-60 nodes fed directly to Tree::symmetricLayout "
-        "(random, lopsided, uneven caterpillars/spiders, the 14-node witness family, four growth directions); orthogonally routed graphs on a grid with many crossings and bundles); "
+        "(random, lopsided, uneven caterpillars/spiders, the 14-node witness family, four growth directions; classes layoutx-*: "
+        "the same shapes plus deep paths, stars, nested lopsided subtrees, 1-4 node trees with anisotropic / quarter-valued sizes, "
+        "nodeSep and rankSep incl. 0 and rankSep below the extents, both convexOrdering values — exact tie with the Lean model); orthogonally routed graphs on a grid with many crossings and bundles); "
         "a case is non-trivial if at least one leaf was peeled / more than one component / at least one crossing node was created")
 TRUSTED_BASE = ["Lean 4.33 kernel", "axioms: propext, Classical.choice, Quot.sound",
                 "harness + hex-float import", "Lean compiler for the driver",
-                "model-to-code tie is by sampling (correspondence), not proof"]
+                "model-to-code tie is by sampling (correspondence), not proof",
+                "harness reads Tree::m_boundsByRank/m_lb/m_ub through '#define private public' around the libdialect headers"]
 ASSUMPTIONS = ["peel inputs are connected simple graphs (the C++ asserts otherwise)",
+               "symmetricLayout no-overlap: every node extent along the growth direction <= rankSep, sizes >= 0, nodeSep >= 0 "
+               "(stated in the theorem; necessary); exact tie: sizes/separations dyadic so that double arithmetic is exact",
                "planarise inputs are orthogonal routes with integer-grid or router-produced coordinates; "
                "crossings closer than the planariser's own tolerances (0.5/0.8/1.0) to a segment end are outside the generator"]
 
